@@ -170,6 +170,14 @@ class _Loader(importlib.abc.Loader):
         else:
             code = compile(src, self.path, 'exec', dont_inherit=True)
         exec(code, module.__dict__)
+        if self.instrumented:
+            # C functions imported by name that have a model
+            import types
+            for k, v in list(module.__dict__.items()):
+                if isinstance(v, (types.BuiltinFunctionType,
+                                  types.FunctionType)) and \
+                        (id(v) in rt.FUNC_MODELS or id(v) in rt.ALWAYS_FUNCS):
+                    module.__dict__[k] = rt.wrap_global(v)
 
 
 class Finder(importlib.abc.MetaPathFinder):
